@@ -19,11 +19,12 @@ use trusttunnel::verif_hooks::{self as vh, VUdpIn};
 const HDR: usize = 37; // 2 x (16 + 2) + 1, PROTOCOL.md 6.3
 const MAX_UDP_PAYLOAD: usize = 65_507;
 
-pub const KINDS: [&str; 15] = [
+pub const KINDS: [&str; 16] = [
     "valid-v4",
     "valid-v6",
     "dst-v6-loopback",
     "dst-all-zero",
+    "src-v4-mapped-v6",
     "name0-payload0",
     "name1-payload1",
     "name255",
@@ -73,6 +74,8 @@ pub fn build(kind: usize, pos: u8) -> Vec<u8> {
         "valid-v6" => record(s6, d6, b"", &pl[..3], None),
         "dst-v6-loopback" => record(s6, "[::1]:7".parse().unwrap(), b"a", &pl, None),
         "dst-all-zero" => record(s4, "[::]:9".parse().unwrap(), b"a", &pl, None),
+        // an IPv6 address that embeds an IPv4 one is still an IPv6 address (PROTOCOL.md 11.2)
+        "src-v4-mapped-v6" => record("[::ffff:192.0.2.1]:1234".parse().unwrap(), "[::1:808:808]:53".parse().unwrap(), b"m", &pl, None),
         "name0-payload0" => record(s4, d4, b"", b"", None),
         "name1-payload1" => record(s4, d4, b"n", &[pos], None),
         "name255" => record(s4, d4, &[b'x'; 255], &pl, None),
